@@ -55,6 +55,35 @@ func ruleSRTStateConsulted(p *Prog, l *Ledger, tier string) {
 			}
 		}
 	}
+	// the fields of the state, and where each is read ("*": the whole state is read or handed on)
+	stateFields := strset{}
+	readsOf := map[string][]ssa.Instruction{}
+	for _, b := range fn.Blocks {
+		for _, ins := range b.Instrs {
+			switch x := ins.(type) {
+			case *ssa.Store:
+				if fa, ok := x.Addr.(*ssa.FieldAddr); ok && fa.X == sa {
+					stateFields.add(fieldName(fa.X.Type(), fa.Field))
+				}
+			case *ssa.UnOp:
+				if x.Op == token.MUL {
+					if fa, ok := x.X.(*ssa.FieldAddr); ok && fa.X == sa {
+						f := fieldName(fa.X.Type(), fa.Field)
+						readsOf[f] = append(readsOf[f], x)
+					}
+					if x.X == sa {
+						readsOf["*"] = append(readsOf["*"], x)
+					}
+				}
+			case *ssa.Call:
+				for _, a := range x.Call.Args {
+					if a == sa {
+						readsOf["*"] = append(readsOf["*"], x)
+					}
+				}
+			}
+		}
+	}
 	n := 0
 	for _, b := range fn.Blocks {
 		for i, ins := range b.Instrs {
@@ -91,9 +120,22 @@ func ruleSRTStateConsulted(p *Prog, l *Ledger, tier string) {
 					}
 				}
 			}
+			// every field of the running state (the fields the tag handlers store to) is read on every
+			// path to the addition: a fast path that looks at some of them only loses the others
+			missing := ""
+			if ok2 && !blank {
+				for _, f := range stateFields.sorted() {
+					if pathAvoidingReads(fn, b, i, readsOf[f], readsOf["*"]) {
+						missing = f
+						break
+					}
+				}
+			}
 			switch {
+			case ok2 && missing != "":
+				l.Fail(rule, name, key, p.Pos(st.Pos()), fmt.Sprintf("%s adds items to the line at %s on a path that never reads %s of the running emphasis state (other fields of it are read): a run inside a span that only sets %s, opened on an earlier line, loses that markup", name, p.Pos(st.Pos()), f2s(missing), f2s(missing)))
 			case ok2:
-				l.Prove(rule, name, key, p.Pos(st.Pos()), "the addition of line items is dominated by a read of the running style state")
+				l.Prove(rule, name, key, p.Pos(st.Pos()), "the addition of line items is dominated by a read of the running style state, and every field of that state is read on every path to it")
 			case blank:
 				l.Prove(rule, name, key, p.Pos(st.Pos()), "items added for a blank line: no text, no style needed")
 			default:
@@ -306,4 +348,42 @@ func ruleWritersTruncate(p *Prog, l *Ledger, tier string) {
 		}
 	}
 	l.Min(rule, n, len(formatterRoots))
+}
+
+func f2s(f string) string { return "field " + f }
+
+// pathAvoidingReads: some path from the function's entry to instruction #idx of block target passes
+// none of the given reads.
+func pathAvoidingReads(fn *ssa.Function, target *ssa.BasicBlock, idx int, reads ...[]ssa.Instruction) bool {
+	readAt := map[*ssa.BasicBlock]int{} // smallest index of a read in the block
+	for _, rs := range reads {
+		for _, r := range rs {
+			k := instrIndex(r)
+			if old, ok := readAt[r.Block()]; !ok || k < old {
+				readAt[r.Block()] = k
+			}
+		}
+	}
+	seen := map[*ssa.BasicBlock]bool{}
+	var dfs func(b *ssa.BasicBlock) bool
+	dfs = func(b *ssa.BasicBlock) bool {
+		if seen[b] {
+			return false
+		}
+		seen[b] = true
+		k, has := readAt[b]
+		if b == target {
+			return !has || k > idx
+		}
+		if has {
+			return false
+		}
+		for _, s := range b.Succs {
+			if dfs(s) {
+				return true
+			}
+		}
+		return false
+	}
+	return dfs(fn.Blocks[0])
 }
